@@ -124,7 +124,7 @@ static void modeSolve(const Case& c)
         for (auto& ch : w)
             if (ch == ' ' || ch == '\n')
                 ch = '_';
-        os << "status=exception what=" << w;
+        os << " status=exception what=" << w;
     }
     fprintf(g_out, "%s\n", os.str().c_str());
     fflush(g_out);
@@ -263,7 +263,7 @@ static void modeFmgStart(const Case& c)
         for (auto& ch : w)
             if (ch == ' ' || ch == '\n')
                 ch = '_';
-        os << "status=exception what=" << w;
+        os << " status=exception what=" << w;
     }
     fprintf(g_out, "%s\n", os.str().c_str());
     fflush(g_out);
@@ -388,7 +388,7 @@ static void modeHist(const Case& c)
         for (auto& ch : w)
             if (ch == ' ' || ch == '\n')
                 ch = '_';
-        os << "status=exception what=" << w;
+        os << " status=exception what=" << w;
     }
     fprintf(g_out, "%s\n", os.str().c_str());
     fflush(g_out);
@@ -443,7 +443,7 @@ static void modeOpt(const Case& c)
         for (auto& ch : w)
             if (ch == ' ' || ch == '\n')
                 ch = '_';
-        os << "status=exception what=" << w;
+        os << " status=exception what=" << w;
     }
     fprintf(g_out, "%s\n", os.str().c_str());
     fflush(g_out);
@@ -691,7 +691,7 @@ static void modeCycle(const Case& c)
         for (auto& ch : w)
             if (ch == ' ' || ch == '\n')
                 ch = '_';
-        os << "status=exception what=" << w;
+        os << " status=exception what=" << w;
     }
     fprintf(g_out, "%s\n", os.str().c_str());
     fflush(g_out);
